@@ -3,12 +3,15 @@ import AioslskVerif.Props.C01
 import AioslskVerif.Props.C02
 import AioslskVerif.Props.C03
 import AioslskVerif.Props.C04
+import AioslskVerif.Props.C05
+import AioslskVerif.Props.C06
 import AioslskVerif.Props.C07
 import AioslskVerif.Props.C09
 import AioslskVerif.Props.C12
 import AioslskVerif.Props.C13
 import AioslskVerif.Props.C14
 import AioslskVerif.Props.C15
+import AioslskVerif.Props.C16
 import AioslskVerif.Props.C17
 import AioslskVerif.Props.C18
 import AioslskVerif.Props.C19
